@@ -10,7 +10,8 @@ from vcore.obl import Obl, DISCHARGED, REFUTED, UNDECIDED, ERROR
 
 A_INT = "A-int: Python int arithmetic is mathematical (exact in CPython)"
 A_REAL = ("A-real: float values are modelled as real numbers; rounding in accumulate() and u*total is not modelled "
-          "(exact for k/2^32 positions with integer or dyadic weights below 2^21)")
+          "(exact for k/2^32 positions with integer or dyadic weights below 2^21); two of the three rounding facts this hides (a (+) w >= a and a (+) 0 == a for "
+          "non-negative finite doubles) are proved in z3's FloatingPoint theory on every run, the third (0 <= u (*) t < t for normal t) stays assumed")
 A_STR = "A-str: str is a sequence of code points; lone surrogates are excluded from 'any str'"
 A_MD5 = "MD5HEX / UTF8 are uninterpreted functions: identity of the hash is pinned only by known-answer vectors (bounded)"
 A_MODULAR = "modular verification: callers are checked against callee contracts, never callee bodies"
@@ -209,7 +210,7 @@ BIN = "pyab_experiment.binning.binning."
 class C03(Prop):
     id, title = "C03", "Weights partition the hash space exactly, in declared order"
     min_obligations = 10
-    trusted_base = ("z3 4.x/5.x", "cvc5", "CPython ast module (extraction)", "assumed contracts: itertools.accumulate, bisect.bisect, hashlib.md5, str.encode, int(s,16)")
+    trusted_base = ("z3 4.x/5.x", "cvc5", "CPython ast module (extraction)", "assumed contracts: itertools.accumulate, hashlib.md5, str.encode, int(s,16); bisect.bisect_right's contract is PROVED for CPython's Lib/bisect.py with a loop invariant on every run (the C accelerator is trusted to agree)")
     assumptions = (A_INT, A_REAL, A_STR, A_MD5, A_MODULAR, A_INDUCTION,
                    "'every group whose share spans a grid point is selectable' is proved at grid level only (that some id hashes to a given grid point is a property of MD5)")
     explanation = ("contracts on deterministic_proba / deterministic_choice (interval postcondition), lemmas over the contract, "
